@@ -32,7 +32,16 @@ static int stub_unlock(fiber_mutex_t* m);
 #define fiber_mutex_lock(m) stub_lock(m)
 #define fiber_mutex_unlock(m) stub_unlock(m)
 #define MSIZE_OK(c) ((c)->size >= 2 && (c)->size <= (1u << PMAX) && ((c)->size & ((c)->size - 1)) == 0 && (c)->power_of_2_mod == (c)->size - 1)
+/* create's allocator: records the request; hands back the static store declared below (create touches only the header) */
+static size_t create_req; static int create_calls; static void* create_obj;
+static void* stub_calloc(size_t n, size_t sz) { create_calls++; create_req = n * sz; return verif_bool() ? 0 : create_obj; }
+static int create_frees;
+static void stub_free(void* q) { if (q == create_obj) create_frees++; }
+#define calloc stub_calloc
+#define free stub_free
 #include "fiber_multi_channel.h" /* woven */
+#undef calloc
+#undef free
 #undef fiber_mutex_lock
 #undef fiber_mutex_unlock
 static struct { fiber_multi_channel_t c; void* cells[1 << PMAX]; } CHS;
@@ -112,4 +121,17 @@ void h_receive(void) {
   init_any(0); void* r = fiber_multi_channel_receive(CH); verif_sync(-1); common_post();
   VASSERT(CH->low == G.l0 + 1 && CH->high == G.h0 && G.h0 > G.l0 && r == G.taken && r != 0 && SLOT(G.l0) == 0, "H: C11 receive returns the message at position low of a non-empty channel, clears the slot and advances low");
   VCANARY("receive can return");
+}
+/* fiber_mutex_init by its contract (proved in C03's init group) */
+int fiber_mutex_init(fiber_mutex_t* m) { m->counter = 1; return verif_bool() ? FIBER_SUCCESS : FIBER_ERROR; }
+void h_create(void) {
+  uint32_t k = (uint32_t)verif_u64(); VASSUME(k >= 1 && k < 32);
+  create_calls = 0; create_req = 0; create_frees = 0; create_obj = &CHS;
+  fiber_multi_channel_t* r = fiber_multi_channel_create(k);
+  VASSERT(create_calls == 1 && create_req >= sizeof(fiber_multi_channel_t) + ((size_t)1 << k) * sizeof(void*),
+          "H: C11 create: the allocation holds the header and all 2^k slots, for every k the interface admits (1..31)");
+  if (r) VASSERT(r == CH && r->size == ((size_t)1 << k) && r->power_of_2_mod == r->size - 1 && r->high == r->low && r->lock.counter == 1,
+                 "H: C11 create: capacity 2^k, mask 2^k - 1, empty, free lock");
+  else VASSERT(create_frees <= 1, "H: C11 a failed create frees its allocation at most once");
+  VCANARY("create can return");
 }
